@@ -2,7 +2,7 @@
    accepted names that are not MCNP cards) through convert_card, from the
    any-axis lemmas of Proofs.v. *)
 From Coq Require Import List ZArith Bool Reals Lra Lia Psatz.
-From T4V Require Import Base.Scalar C02.Vec C02.Spec C02.Model C02.Proofs C02.ProofsCards.
+From T4V Require Import Base.Scalar C02.Vec C02.Spec C02.Model C02.Proofs C02.ProofsCards C02.ProofsP3.
 Import ListNotations.
 Open Scope R_scope.
 
@@ -86,4 +86,37 @@ Proof.
     eapply (two_lits _ _ _ h1 h2 k1 k2); try eassumption.
     + intros q. rewrite Hq1. unfold p'. rewrite cone_about_shift. reflexivity.
     + intros q. rewrite Hq2. unfold p'. rewrite plane_through_shift. ring.
+Qed.
+
+(* ---------- outside the guards the code raises (no wrong surface is emitted) ---------- *)
+Lemma p_zero_normal_raises D : convert_card RS M_P [0; 0; 0; D] = Err EZeroDiv.
+Proof.
+  unfold convert_card, to_surface_mcnp. cbn -[norm_].
+  replace (norm_ RS 0 0 0) with 0.
+  - rewrite Reqb_refl. reflexivity.
+  - unfold norm_, ssq. cbn. replace (0 * 0 + 0 * 0 + 0 * 0) with 0 by ring. symmetry. apply sqrt_0.
+Qed.
+
+Lemma k_negative_t2_raises t2 :
+  t2 < 0 ->
+  (forall c, convert_card RS M_KX [c; t2] = Err EType /\ convert_card RS M_KY [c; t2] = Err EType /\
+             convert_card RS M_KZ [c; t2] = Err EType) /\
+  (forall x y z, convert_card RS M_K_X [x; y; z; t2] = Err EType /\
+                 convert_card RS M_K_Y [x; y; z; t2] = Err EType /\
+                 convert_card RS M_K_Z [x; y; z; t2] = Err EType).
+Proof.
+  intros Ht. assert (E : Rltb t2 0 = true) by (apply Rltb_true; exact Ht).
+  split; intros; repeat split; unfold convert_card, to_surface_mcnp; cbn; unfold sqrt_t2; cbn;
+    rewrite E; reflexivity.
+Qed.
+
+Lemma p3_collinear_raises x1 y1 z1 x2 y2 z2 x3 y3 z3 :
+  mag2 RS (p3_normal RS (x1, y1, z1) (x2, y2, z2) (x3, y3, z3)) <= eps10 RS ->
+  convert_card RS M_P [x1; y1; z1; x2; y2; z2; x3; y3; z3] = Err EValue.
+Proof.
+  intros H. unfold convert_card, to_surface_mcnp, normalize_surface, plane_params_from_points.
+  rewrite ProofsP3.model_normal. unfold orient_plane.
+  replace (sleb RS (mag2 RS (p3_normal RS (x1, y1, z1) (x2, y2, z2) (x3, y3, z3))) (eps10 RS)) with true
+    by (symmetry; apply Rleb_true; exact H).
+  reflexivity.
 Qed.
